@@ -243,10 +243,14 @@ TABLE = {
             "scalar and array declarations, statements with every argument form and bracket style, loops) and EVERY "
             "layout of line ends - before the metadata, between metadata lines, before includes, between items, blank "
             "lines inside loop bodies, at the end (final newline or not) - the model parser returns exactly the script, "
-            "hence the same loaded program. Partial at character level: that spaces/comments produce no token, "
-            "LF/CRLF/CR give NEWLINE and tab/four spaces give TAB is checked by comparing the model lexer (tied to the "
-            "grammar file by C14) with the shipped lexer on every variant, plus kernel-evaluated examples.",
-            "Lean 4 proof (parser inverts printer under all layouts) + lexer correspondence", "DESIGN.md 7 (C18)",
+            "hence the same loaded program. Character level (Props/C18Lex.lean, Lemmas/Lex{Comment,Space,Newline,Tab}.lean), "
+            "theorems about the model lexer on ARBITRARY text: a `#` comment up to the line end emits no token and its "
+            "text is irrelevant; a run of spaces that is not exactly four long emits no token, so the amount of spacing "
+            "is irrelevant; LF, CR LF and a lone CR are each exactly one NEWLINE and give the same token kinds behind "
+            "them; a tab and exactly four spaces are each one TAB. Still differential: that the shipped lexer behaves "
+            "as the model lexer (whose rules are proved to be the grammar file's by C14) - LEX correspondence on every "
+            "layout variant; runs of blanks that mix tabs and spaces are covered by that correspondence only.",
+            "Lean 4 proof (parser inverts printer under all layouts; lexer lemmas on arbitrary text) + lexer correspondence", "DESIGN.md 7 (C18)",
             "Scripts ending in an array row without final newline: open finding C18-array-row-at-eof."),
     "C19": (True,
             "Theorems (Props/C19.lean) quantified over all iteration orders of the sets involved: the outcome of a load "
